@@ -167,3 +167,103 @@ impl TryRng for FixedRng {
 }
 
 impl TryCryptoRng for FixedRng {}
+
+/// Marker payload of the panic raised by `ScriptRng` when a call draws without end (e.g. a "draw again until
+/// different" loop fed by a constant source).  `bounded` turns it into a value.
+pub struct Runaway;
+
+/// A SCRIPTED random source: replays `data` cyclically (period = data.len()), counts the bytes handed out and
+/// refuses (panic with `Runaway`) to hand out more than `limit` bytes.  Used for the "constant or repeating source"
+/// part of the quantifiers of C15 / C16 / C02.
+#[derive(Clone, Debug)]
+pub struct ScriptRng {
+    pub data: Vec<u8>,
+    /// number of bytes handed out so far
+    pub pos: usize,
+    pub limit: usize,
+}
+
+impl ScriptRng {
+    pub fn new(data: Vec<u8>) -> Self {
+        let data = if data.is_empty() { vec![0] } else { data };
+        ScriptRng { data, pos: 0, limit: 1 << 22 }
+    }
+    /// bytes `from .. from + len` of the (infinite) stream
+    pub fn stream(&self, from: usize, len: usize) -> Vec<u8> {
+        (from..from + len).map(|i| self.data[i % self.data.len()]).collect()
+    }
+}
+
+impl TryRng for ScriptRng {
+    type Error = Infallible;
+    fn try_next_u32(&mut self) -> Result<u32, Infallible> {
+        let mut b = [0u8; 4];
+        self.try_fill_bytes(&mut b)?;
+        Ok(u32::from_le_bytes(b))
+    }
+    fn try_next_u64(&mut self) -> Result<u64, Infallible> {
+        let mut b = [0u8; 8];
+        self.try_fill_bytes(&mut b)?;
+        Ok(u64::from_le_bytes(b))
+    }
+    fn try_fill_bytes(&mut self, dst: &mut [u8]) -> Result<(), Infallible> {
+        if self.pos + dst.len() > self.limit {
+            std::panic::panic_any(Runaway);
+        }
+        let n = self.data.len();
+        for d in dst.iter_mut() {
+            *d = self.data[self.pos % n];
+            self.pos += 1;
+        }
+        Ok(())
+    }
+}
+
+impl TryCryptoRng for ScriptRng {}
+
+/// Runs `f`; `Err(())` if a `ScriptRng` inside it ran away.  Any other panic is passed on.
+pub fn bounded<T>(f: impl FnOnce() -> T) -> Result<T, ()> {
+    match std::panic::catch_unwind(std::panic::AssertUnwindSafe(f)) {
+        Ok(v) => Ok(v),
+        Err(payload) if payload.is::<Runaway>() => Err(()),
+        Err(payload) => std::panic::resume_unwind(payload),
+    }
+}
+
+/// One period of a scripted stream: (description, bytes).  Built from up to three random 32-byte blocks A, B, C.
+/// `safe`: every byte lies in 0x01..=0x7f, so that any window of the stream is a non-zero value below every group
+/// order in either byte order (sources for functions that sample scalars by rejection: no draw is ever rejected).
+pub fn scripted_period(rng: &mut TestRng, safe: bool) -> (String, Vec<u8>) {
+    let fix = |v: Vec<u8>| -> Vec<u8> {
+        if safe {
+            v.into_iter().map(|b| (b % 127) + 1).collect()
+        } else {
+            v
+        }
+    };
+    let blocks: Vec<Vec<u8>> = (0..3).map(|_| rng.bytes(32)).collect();
+    let from_pattern = |pat: &str| -> Vec<u8> {
+        pat.bytes().flat_map(|c| blocks[(c - b'A') as usize % 3].clone()).collect()
+    };
+    const PATTERNS: [&str; 14] = [
+        "AABC", "AAB", "ABBC", "ABCC", "AAAB", "ABAC", "ABCA", "AABB", "ABBA", "AABCBBCA", "ABCB", "AAAAB", "ABCABA", "ABACAB",
+    ];
+    match rng.below(10) {
+        0 => {
+            let b = [0x00u8, 0xff, 0x01, 0x80, 0x7f, rng.below(256) as u8][rng.below(6)];
+            let b = fix(vec![b])[0];
+            (format!("constant byte 0x{b:02x}"), vec![b])
+        }
+        1 | 2 => ("one 32-byte block repeated (period 32)".into(), fix(from_pattern("A"))),
+        3 | 4 => ("two 32-byte blocks repeated (period 64)".into(), fix(from_pattern("AB"))),
+        5 => {
+            // periods that are not a multiple of the block size
+            let len = [1usize, 16, 31, 33, 48, 63, 65, 96][rng.below(8)];
+            (format!("{len} random bytes repeated (period {len})"), fix(rng.bytes(len)))
+        }
+        _ => {
+            let pat = PATTERNS[rng.below(PATTERNS.len())];
+            (format!("32-byte blocks {pat} repeated"), fix(from_pattern(pat)))
+        }
+    }
+}
